@@ -63,6 +63,48 @@ def field_names(vals):
     return names
 
 
+def mismatch_entries_show_actual(chk, F, rule, cfg):
+    """'each with that value': for every entry of a mismatch report whose actual value has a rendering, what is written for that entry
+    includes that rendering (directly, or through the actual/expected diff) - for every kind of mismatch, on every path"""
+    fn = F.method('mismatch::Mismatches', 'fmt', 'core::fmt::Display')
+    paths = symex.Interp(F, loop_bound=3).run(fn)
+    chk.analysed(fn)
+    n = 0
+    for p in paths:
+        if p.outcome[0] != 'return' or is_call(strip(p.outcome[1]), r'from_residual$') or (strip(p.outcome[1])[0] == 'agg' and strip(p.outcome[1])[3] == 'Err'):
+            continue
+        nexts = [e for e in p.effects if e.kind == 'call' and re.search(r'Iterator>?::next$', e.data[1])]
+        bounds = [e.ndec for e in nexts] + [len(p.decisions) + 1]
+        for k in range(len(nexts)):
+            lo, hi = bounds[k], bounds[k + 1]
+            decs = p.decisions[lo:hi]
+            shown = False
+            kind = None
+            has = {}
+            for d in decs:
+                v = strip(d.value)
+                if v[0] == 'discr' and field_path(v[1])[1][-1:] in (['actual'], ['expected']):
+                    has[field_path(v[1])[1][-1]] = decision_variant(F, d)
+                    # (the arms that show values need both renderings; with one missing the entry says so instead)
+                    shown = has.get('actual') == 'Some' and has.get('expected') == 'Some'
+                if v[0] == 'discr' and field_path(v[1])[1][-1:] == ['kind']:
+                    kind = decision_variant(F, d)
+            vals = []
+            for e in p.effects:
+                if e.kind == 'call' and lo <= e.ndec < hi and re.search(r'Formatter::write_fmt$|Formatter::write_str$|Write>?::write_str$|Write>?::write_fmt$|Display>?::fmt$|Debug>?::fmt$|Diff::new$', e.data[1]):
+                    vals.extend(e.data[2])
+            names_ = field_names(vals)
+            # (which entries have both renderings may be decided on the two Options themselves or on something built from them, e.g.
+            #  `actual.as_ref().zip(expected.as_ref())`: an entry that shows a value of the mismatch at all must show the actual one)
+            if not shown and not ({'actual', 'expected'} & names_):
+                continue
+            n += 1
+            ok = 'actual' in names_
+            chk.ob(rule, 'a mismatch entry (%s) whose actual value has a rendering shows that rendering' % (kind,), ok, config=cfg, fn=fn, site='entry:%s' % (kind,),
+                   what='mismatch entry of kind %s is written without its actual value' % (kind,), found=sorted(field_names(vals)), expected='the entry\'s `actual` (alone or in the actual/expected diff)')
+    chk.floor(rule, 'mismatch entries with a rendered actual value (paths x kinds)', n, 3, config=cfg)
+
+
 def mentions_field(vals, variant, field):
     def pred(x):
         if x[0] == 'field' and x[2] == field and strip(x[1])[0] == 'as' and strip(x[1])[2] == variant:
@@ -93,6 +135,7 @@ def run(chk, tier):
         from props import ctor
         ctor.reporter_storage(chk, F, 'R19.6', cfg)
         expected_pattern_lookup(chk, F, 'R19.7', cfg)
+        mismatch_entries_show_actual(chk, F, 'R19.9', cfg)
         E.index_is_position(chk, F, 'R19.5.sel', cfg)
         ctor.matcher_storage(chk, F, 'R19.4.store', cfg)
     from xpand import rules as X
